@@ -823,3 +823,71 @@ func c18KeyIdentity(c *Ctx, r *Report, rule string) {
 		r.check(len(bad) == 0, rule, "SIG.Verify:"+g.Name, c.pos(fn.Pos()), "on every success path", "success at %s is reachable without the test %s: a message signed with one algorithm verifies against a KEY record that names another (same key material, different algorithm and key tag), i.e. against a key the signature does not name", strings.Join(uniqStrings(bad), ", "), g.Name)
 	}
 }
+
+// nodeIDFormat: the NID / L64 text form is four groups of four hex digits separated by colons: 19 characters, a
+// colon at positions 4, 9 and 14. The digits are parsed only where all of that has been established.
+func nodeIDFormat(c *Ctx, r *Report, rule string) {
+	r.rule(rule, 1, "stringToNodeID parses the digits only for a token of exactly 19 characters with ':' at positions 4, 9 and 14")
+	fn := c.ssaFunc("stringToNodeID")
+	if fn == nil {
+		r.cerr(rule, "stringToNodeID", "function not found")
+		return
+	}
+	r.fn("stringToNodeID")
+	var parse ssa.CallInstruction
+	for _, ci := range callsIn(fn, "strconv.ParseUint") {
+		parse = ci
+	}
+	if parse == nil {
+		r.undecided(rule, "stringToNodeID", c.pos(fn.Pos()), "no ParseUint call found")
+		return
+	}
+	blk := parse.(ssa.Instruction).Block()
+	colons := map[int64]bool{}
+	lo, hi := int64(-1), int64(1<<40)
+	for _, f := range factsAt(fn, blk) {
+		bin, ok := f.Atom.(*ssa.BinOp)
+		if !ok {
+			continue
+		}
+		// token[k] == ':'
+		if k, isK := constIntOf(bin.Y); isK && k == ':' && ((bin.Op == token.EQL && f.Holds) || (bin.Op == token.NEQ && !f.Holds)) {
+			var idx ssa.Value
+			switch t := bin.X.(type) {
+			case *ssa.Index:
+				idx = t.Index
+			case *ssa.Lookup:
+				idx = t.Index
+			}
+			if idx != nil {
+				if pos, isP := constIntOf(idx); isP {
+					colons[pos] = true
+				}
+			}
+		}
+		isLen := func(v ssa.Value) bool {
+			call, ok := v.(*ssa.Call)
+			return ok && calleeNameSSA(&call.Call) == "builtin.len"
+		}
+		l, h, hasL, hasH := intervalFromFact(f, isLen)
+		if hasL && l > lo {
+			lo = l
+		}
+		if hasH && h < hi {
+			hi = h
+		}
+		if k, isK := constIntOf(bin.Y); isK && isLen(bin.X) && ((bin.Op == token.EQL && f.Holds) || (bin.Op == token.NEQ && !f.Holds)) {
+			lo, hi = k, k
+		}
+	}
+	var ps []string
+	for _, p := range []int64{4, 9, 14} {
+		if !colons[p] {
+			ps = append(ps, fmt.Sprintf("no test that position %d holds a colon dominates the parse", p))
+		}
+	}
+	if lo != 19 || hi != 19 {
+		ps = append(ps, fmt.Sprintf("the token length is not pinned to 19 (known: %d..%d)", lo, hi))
+	}
+	r.check(len(ps) == 0, rule, "stringToNodeID", c.pos(parse.Pos()), "19 characters, three colons", "%s: text such as 0014:4fffxff20:ee64 or 0014:4fff:ff20:ee64zzzz is accepted and silently read as 0014:4fff:ff20:ee64", strings.Join(ps, "; "))
+}
